@@ -254,10 +254,27 @@ def diagram_rename_stream(ctx: Ctx, n: int):
                 a, b = rng.choice(comps), rng.choice(comps)      # an import between two components, drawn or not
                 if a != b:
                     E.add((rng.choice(below(a)), rng.choice(below(b))))
-            aedges = sorted(e for e in E if e[0] != e[1])
             perm = list(range(9))
             rng.shuffle(perm)
-            namings = [FREE, [ADV[perm[i]] for i in range(9)], [ADV2[perm[(i + 3) % 9]] for i in range(9)], [ADVU[perm[(i + 6) % 9]] for i in range(9)]]
+            # often: two sibling components whose adversarial names are string prefixes of each other ('a' / 'ab', 'x' / 'xx'), with an
+            # import between them that the diagram does not draw (and, in should-only mode, no other arrow that could catch it)
+            sibs = [(a, b) for a in comps for b in comps if a != b and a[:-1] == b[:-1] and a[-1] != b[-1] and (a, b) not in rel]
+            if sibs and rng.random() < 0.5:
+                a, b = rng.choice(sibs)
+                E.add((rng.choice(below(a)), rng.choice(below(b))))
+                # ids a[-1] -> first adversarial name, b[-1] -> a name extending it
+                rest = [i for i in perm if i not in (a[-1], b[-1])]
+                order = {a[-1]: 0, b[-1]: 1}
+                for k, i in enumerate(rest):
+                    order[i] = k + 2
+                perm_adv = [order[i] for i in range(9)]
+                ADV_P = ["a", "ab", "a_b", "aa", "b", "ba", "a1", "_a", "A"]
+                ADV2_P = ["x", "xx", "xxx", "x_", "x_x", "X", "x1", "x11", "_x"]
+                namings = [FREE, [ADV_P[perm_adv[i]] for i in range(9)], [ADV2_P[perm_adv[i]] for i in range(9)], [ADVU[perm[(i + 6) % 9]] for i in range(9)]]
+                ctx.stat("diagram_forced_prefix_siblings")
+            else:
+                namings = [FREE, [ADV[perm[i]] for i in range(9)], [ADV2[perm[(i + 3) % 9]] for i in range(9)], [ADVU[perm[(i + 6) % 9]] for i in range(9)]]
+            aedges = sorted(e for e in E if e[0] != e[1])
             per = []
             for k, names in enumerate(namings):
                 nodes = [render(x, names) for x in anodes]
